@@ -464,6 +464,12 @@ class Maps:
                 g = self.w.fns.get(next((f.id for f in self.w.by_p.get(o[1], [])), None))
                 r = self._eval_helper(g) if g is not None and self.version else None
                 pers = r[1].rsplit("::", 1)[-1] if r and r[0] == "const" else "fn:" + o[1].rsplit("::", 1)[-1]
+                if not (r and r[0] == "const") and g is not None and g.body is not None and \
+                        re.match(r"^\[u8; \d+\]$", g.body.local_ty(0) or ""):
+                    # a helper that builds the personalisation (PREFIX || branch id) from its arguments
+                    built = Maps(self.w, g)._built_personal(0, [defuse.strip_refs(a) for a in o[2]])
+                    if built != "built":
+                        pers = built
             elif o[0] == "local" or (o[0] == "agg" and o[1] == "repeat"):
                 pers = self._built_personal(o[1])
             else:
@@ -567,13 +573,20 @@ class Maps:
                 return None
         return None
 
-    def _built_personal(self, local):
-        """personal = PREFIX || branch id: which prefix constant was copied in"""
+    def _built_personal(self, local, call_args=None):
+        """personal = PREFIX || branch id: which prefix constant was copied in (call_args: the caller's
+        argument origins when this body is a helper that receives the prefix as a parameter)"""
         for bb, t in self.b.calls():
             if t.callee.indirect is None and t.callee.target_p().endswith("::copy_from_slice"):
                 dst = defuse.show(self.du.origin(t.args[0]))
                 if True:
                     o = defuse.strip_refs(self.du.origin(t.args[1]))
+                    while o[0] == "call" and PASS.search(o[1]) and o[2]:
+                        o = defuse.strip_refs(o[2][0])
+                    if o[0] == "arg" and call_args is not None and o[1] < len(call_args):
+                        o = call_args[o[1]]
+                        while o[0] == "call" and PASS.search(o[1]) and o[2]:
+                            o = defuse.strip_refs(o[2][0])
                     if o[0] == "constdef":
                         tail = [self.describe(self.du.origin(t2.args[1])) for _b2, t2 in self.b.calls()
                                 if t2.callee.indirect is None and t2.callee.target_p().endswith("::write_u32_le")
